@@ -839,18 +839,21 @@ class BaseWorkflow(object, metaclass=abc.ABCMeta):
                         task.allocated_facility_list = []
 
     def __set_est_eft_data(self, time: int):
-        input_task_set = set()
+        # (lists in task_list order instead of sets: for SS/FF/SF links ties between several
+        # predecessors are resolved by the visiting order, which must not depend on object addresses)
+        input_task_set = []
 
         # 1. Set the earliest finish time of head tasks.
         for task in self.task_list:
             task.est = time
             if len(task.input_task_list) == 0:
                 task.eft = time + task.remaining_work_amount
-                input_task_set.add(task)
+                input_task_set.append(task)
 
         # 2. Calculate PERT information of all tasks
         while len(input_task_set) > 0:
-            next_task_set = set()
+            next_task_set = []
+            next_task_id_set = set()
             for input_task in input_task_set:
                 for next_task, dependency in input_task.output_task_list:
                     pre_est = next_task.est
@@ -878,7 +881,9 @@ class BaseWorkflow(object, metaclass=abc.ABCMeta):
                     if est >= pre_est:
                         next_task.est = est
                         next_task.eft = eft
-                    next_task_set.add(next_task)
+                    if id(next_task) not in next_task_id_set:
+                        next_task_id_set.add(id(next_task))
+                        next_task_set.append(next_task)
 
             input_task_set = next_task_set
 
@@ -889,7 +894,7 @@ class BaseWorkflow(object, metaclass=abc.ABCMeta):
             task.lft = -1.0
 
         # 1. Extract the list of tail tasks.
-        output_task_set = set(
+        output_task_set = list(
             filter(lambda task: len(task.output_task_list) == 0, self.task_list)
         )
 
@@ -902,7 +907,8 @@ class BaseWorkflow(object, metaclass=abc.ABCMeta):
         # 3. Calculate PERT information of all tasks
         calculated_task_id_set = set(id(task) for task in output_task_set)
         while len(output_task_set) > 0:
-            prev_task_set = set()
+            prev_task_set = []
+            prev_task_id_set = set()
             for output_task in output_task_set:
                 for prev_task, dependency in output_task.input_task_list:
                     pre_lft = prev_task.lft
@@ -931,7 +937,9 @@ class BaseWorkflow(object, metaclass=abc.ABCMeta):
                         prev_task.lst = lst
                         prev_task.lft = lft
                         calculated_task_id_set.add(id(prev_task))
-                    prev_task_set.add(prev_task)
+                    if id(prev_task) not in prev_task_id_set:
+                        prev_task_id_set.add(id(prev_task))
+                        prev_task_set.append(prev_task)
 
             output_task_set = prev_task_set
 
